@@ -293,3 +293,64 @@ def variant_full(path):
     if dk.startswith("Ctor") and path.get("parent"):
         d = path["parent"]
     return d
+
+
+def top_match(fn_item, scrut=None):
+    """the `match` that forms the value of a function body (after `use` items / let-free blocks).
+    Returns the Match node or raises Unrecognised."""
+    e = strip(fn_item["body"])
+    while e["k"] == "Block":
+        real = [s for s in e["stmts"] if s["k"] != "Item"]
+        if real or not e.get("expr"):
+            # allow a single statement-expression match
+            if len(real) == 1 and real[0]["k"] in ("Expr", "Semi") and not e.get("expr"):
+                e = strip(real[0]["expr"])
+                continue
+            raise Unrecognised("%s: body is not a single match" % fn_item["name"], e)
+        e = strip(e["expr"])
+    if e["k"] != "Match":
+        raise Unrecognised("%s: body is not a match (found %s)" % (fn_item["name"], e["k"]), e)
+    return e
+
+
+def arms_by_variant(m, allow_wild=False):
+    """[(variant name, arm, pattern-for-that-variant)] expanding or-patterns; a wildcard arm yields ('_', arm, pat)"""
+    out = []
+    for a in m["arms"]:
+        for p in flatten_or(a["pat"]):
+            q = p
+            while q["k"] in ("Ref", "Box", "Deref") or (q["k"] == "Binding" and q.get("sub")):
+                q = q["pat"] if q["k"] != "Binding" else q["sub"]
+            if q["k"] in ("Wild", "Binding"):
+                out.append(("_", a, q))
+            elif q["k"] in ("TupleStruct", "Struct"):
+                out.append((variant_of(q["path"]), a, q))
+            elif q["k"] == "Expr" and q["expr"]["k"] == "Path":
+                out.append((variant_of(q["expr"]["path"]), a, q))
+            elif q["k"] == "Expr" and q["expr"]["k"] == "Lit":
+                out.append((q["expr"]["lit"]["v"], a, q))
+            else:
+                raise Unrecognised("arm pattern %s" % q["k"], q)
+    return out
+
+
+def flatten_or(p):
+    if p["k"] == "Or":
+        out = []
+        for x in p["pats"]:
+            out.extend(flatten_or(x))
+        return out
+    return [p]
+
+
+def pat_bindings(q):
+    """positional bindings of a TupleStruct pattern: [name or None]"""
+    if q["k"] != "TupleStruct":
+        return []
+    out = []
+    for x in q["pats"]:
+        y = x
+        while y["k"] in ("Ref", "Box", "Deref"):
+            y = y["pat"]
+        out.append(y["name"] if y["k"] == "Binding" else None)
+    return out
